@@ -223,3 +223,156 @@ def exact_p_norm_contract(kind):
 def all_contracts(tier):     # noqa: F811
     cs = [p_norm_contract(k) for k in (1, 2, 3, 4, "int", "real")] + [exact_p_norm_contract(k) for k in ("valid", "negative")]
     return cs, {(MOD, "_p_norm"): Contract(MOD, "_p_norm", None, summary=pnorm_summary)}
+
+
+# ----------------------------------------------------------------------------- grid landscapes: sup norm, conversion to pairs, p-norm entry point
+AMOD = "persim/landscapes/approximate.py"
+
+
+def _approx_obj(eng):
+    from .c09_arith import approx_obj
+    return approx_obj(eng, "self")
+
+
+def approx_sup_norm_contract():
+    """sup norm of a grid landscape = largest absolute value over all depths and nodes (attained, bounds every entry)"""
+    def make_args(eng):
+        o, grid, k, vals = _approx_obj(eng)
+        return {"self": o}, {"o": o, "k": k, "vals": vals, "n": grid["num_steps"], "old": dict(o.fields)}
+
+    def ensures(a, res):
+        e, g = a.eng, a.g
+        d = e.fresh_int("qd", lo=0, hi=g["k"])
+        i = e.fresh_int("qi", lo=0, hi=g["n"])
+        dd, ii = z3.Int(e.uniq("wd")), z3.Int(e.uniq("wi"))
+        rng = z3.And(dd >= 0, dd < to_z3(g["k"]), ii >= 0, ii < to_z3(g["n"]))
+        hit = e.under(rng, lambda: zb(abs(lift(g["vals"].get(Num(dd), Num(ii)))) == res))
+        return [("bounds_every_absolute_value", abs(lift(g["vals"].get(d, i))) <= res, "P"),
+                ("is_attained", BoolV_(z3.Exists([dd, ii], z3.And(rng, hit))), "P"),
+                ("landscape_untouched", all(g["o"].fields[k] is g["old"][k] for k in g["old"]) and set(g["o"].fields) == set(g["old"]), "P")]
+    return Contract(AMOD, "PersLandscapeApprox.sup_norm", make_args, ensures=ensures, definedness="P")
+
+
+def BoolV_(t):
+    from pyvc.values import BoolV
+    return BoolV(t)
+
+
+def values_to_pairs_contract():
+    """values_to_pairs()[d][i] == (start + i*(stop-start)/(num_steps-1), values[d][i]) for every depth and node"""
+    from pyvc.models import AppendList
+
+    def make_args(eng):
+        o, grid, k, vals = _approx_obj(eng)
+        return {"self": o}, {"o": o, "k": k, "vals": vals, "grid": grid, "old": dict(o.fields)}
+
+    def node(g, i):
+        gr = g["grid"]
+        return lift(gr["start"]) + lift(i) * ((lift(gr["stop"]) - gr["start"]) / (lift(gr["num_steps"]) - 1))
+
+    def inv(st):
+        g = st.g
+        r = st.result
+        if isinstance(r, list):
+            return [("one_row_of_pairs_per_depth_so_far", lift(len(r)) == st.k, "S")]
+        n = g["grid"]["num_steps"]
+        return [("one_row_of_pairs_per_depth_so_far", lift(r.n) == st.k, "S"),
+                ("each_row_has_one_pair_per_node", st.each([(0, st.k)], lambda d: lift(r.get(d).n) == n, name="rl"), "S"),
+                ("pairs_are_node_and_value", st.each([(0, st.k), (0, n)], lambda d, i: b_and(lift(r.get(d).get(i)[0]) == node(g, i), lift(r.get(d).get(i)[1]) == g["vals"].get(d, i)), name="rp"), "P")]
+
+    def havoc_result(st):
+        e = st.eng
+        g = st.g
+        k = st.env.lookup("__k_loop0")
+        X = z3.Function(e.uniq("PX"), z3.IntSort(), z3.IntSort(), z3.RealSort())
+        Y = z3.Function(e.uniq("PY"), z3.IntSort(), z3.IntSort(), z3.RealSort())
+        n = g["grid"]["num_steps"]
+        return AppendList(k, lambda d: SymSeq(n, lambda i: (Num(X(to_z3(d), to_z3(i))), Num(Y(to_z3(d), to_z3(i))))))
+
+    def ensures(a, res):
+        e, g = a.eng, a.g
+        from pyvc.arrays import Arr
+        if not (isinstance(res, Arr) and res.ndim == 3):
+            return [("returns_a_depth_by_node_by_2_array", False, "S")]
+        n = g["grid"]["num_steps"]
+        d = e.fresh_int("qd", lo=0, hi=g["k"])
+        i = e.fresh_int("qi", lo=0, hi=n)
+        return [("shape_is_depths_by_nodes_by_2", b_and(lift(res.shape[0]) == g["k"], lift(res.shape[1]) == n, lift(res.shape[2]) == 2), "P"),
+                ("abscissa_is_the_grid_node", lift(res.get(d, i, 0)) == node(g, i), "P"),
+                ("ordinate_is_the_value", lift(res.get(d, i, 1)) == g["vals"].get(d, i), "P"),
+                ("landscape_untouched", all(g["o"].fields[k] is g["old"][k] for k in g["old"]) and set(g["o"].fields) == set(g["old"]), "P")]
+    return Contract(AMOD, "PersLandscapeApprox.values_to_pairs", make_args, ensures=ensures, definedness="P",
+                    loops={0: LoopContract("for vals in self.values", inv, cls="P", havoc={"result": havoc_result})})
+
+
+def pairs_summary(eng, pos, kw):
+    r = eng.fresh_real("pairs_token")
+    eng.ghost.setdefault("pairs_calls", []).append((pos[0], r))
+    return r
+
+
+def approx_p_norm_contract(kind):
+    def make_args(eng):
+        o, grid, k, vals = _approx_obj(eng)
+        if kind == "valid":
+            p = eng.fresh_real("p")
+            eng.assume(p.t >= 0)
+        else:
+            p = eng.fresh_real("p")
+            eng.assume(z3.And(p.t < 0, p.t != -1))
+        return {"self": o, "p": p}, {"o": o, "p": p, "old": dict(o.fields)}
+
+    def raises(a):
+        return [("negative_p_rejected", "ValueError", kind == "negative")]
+
+    def ensures(a, res):
+        e, g = a.eng, a.g
+        calls, pc = e.ghost.get("pnorm_calls", []), e.ghost.get("pairs_calls", [])
+        return [("landscape_untouched", all(g["o"].fields[k] is g["old"][k] for k in g["old"]) and set(g["o"].fields) == set(g["old"]), "P"),
+                ("norm_of_its_own_grid_pairs", len(calls) == 1 and len(pc) == 1 and pc[0][0] is g["o"] and calls[0].get("critical_pairs") is pc[0][1] and calls[0].get("p") is g["p"], "P")]
+    return Contract(AMOD, "PersLandscapeApprox.p_norm", make_args, ensures=ensures, raises=raises, definedness="P", variant=kind)
+
+
+def approx_contracts(tier):
+    """[(contracts, table)]"""
+    t = {(MOD, "_p_norm"): Contract(MOD, "_p_norm", None, summary=pnorm_summary),
+         (AMOD, "PersLandscapeApprox.values_to_pairs"): Contract(AMOD, "PersLandscapeApprox.values_to_pairs", None, summary=pairs_summary)}
+    return [([approx_sup_norm_contract(), values_to_pairs_contract()], {}), ([approx_p_norm_contract("valid"), approx_p_norm_contract("negative")], t)]
+
+
+# ----------------------------------------------------------------------------- exact landscapes: sup norm
+def exact_sup_norm_contract():
+    """sup norm of an exact landscape = largest absolute ordinate over all critical points of all depths (L11: the sup of a
+    piecewise-linear function is attained at a breakpoint); at least one critical point exists"""
+    from pyvc.engine import Obj
+
+    def make_args(eng):
+        cls = eng.module(EMOD).lookup("PersLandscapeExact")
+        o = Obj(cls=cls)
+        cps, g = make_pairs(eng, "self")
+        eng.assume(g["nd"].t >= 1)
+        eng.assume(g["L"](0) >= 1)
+        o.fields.update({"critical_pairs": cps, "hom_deg": 0, "dgms": [], "max_depth": g["nd"]})
+        g.update({"o": o, "cps": cps})
+        return {"self": o}, g
+
+    def ensures(a, res):
+        e, g = a.eng, a.g
+        X, Y, L = g["X"], g["Y"], g["L"]
+        d = e.fresh_int("qd", lo=0, hi=g["nd"])
+        s = e.fresh_int("qs", lo=0, hi=Num(L(to_z3(d))))
+        dd, ss = z3.Int(e.uniq("wd")), z3.Int(e.uniq("ws"))
+        rng = z3.And(dd >= 0, dd < to_z3(g["nd"]), ss >= 0, ss < L(dd))
+        absY = lambda a_, b_: z3.If(Y(a_, b_) >= 0, Y(a_, b_), -Y(a_, b_))
+        return [("bounds_every_absolute_ordinate", abs(lift(Num(Y(to_z3(d), to_z3(s))))) <= res, "P"),
+                ("is_attained_at_a_critical_point", BoolV_(z3.Exists([dd, ss], z3.And(rng, absY(dd, ss) == to_z3(lift(res))))), "P"),
+                ("landscape_untouched", g["o"].fields["critical_pairs"] is g["cps"], "P")]
+    return Contract(EMOD, "PersLandscapeExact.sup_norm", make_args, ensures=ensures, definedness="P")
+
+
+_approx_prev = approx_contracts
+
+
+def approx_contracts(tier):     # noqa: F811
+    t = {(EMOD, "PersLandscapeExact.compute_landscape"): Contract(EMOD, "PersLandscapeExact.compute_landscape", None, summary=lambda eng, pos, kw: None)}
+    return _approx_prev(tier) + [([exact_sup_norm_contract()], t)]
